@@ -69,7 +69,7 @@ def one_config(ctx, c, q, builds):
         sizes = SIZES_BIG if name == "simple256" else SIZES
         # (1) design: exhaustive BFS with small request set
         mcs = "{0, 8, 9, 24, 40, 72}" if name != "simple256" else "{0, 8, 240, 256, 264}"
-        r = ctx.tlc("MC_Pool", cfg=cfg_consts(c, mcs, 3, 5 if q else 6, handles=2) +
+        r = ctx.tlc("MC_Pool", cfg=cfg_consts(c, mcs, 3, 5 if (q or name == "simple256") else 6, handles=2) +
                     "SPECIFICATION Spec\nINVARIANT Inv\nCONSTRAINT Constraint\nVIEW View\nCHECK_DEADLOCK FALSE\n",
                     tag=f"MC_Pool_{name}", timeout=3000, xmx="6g", workers=4)
         if "is violated" in r["out"] or r["exit"] not in (0,):
